@@ -786,7 +786,7 @@ func execTargetConflict(c C16Case) bool {
 			if !ok || f == nil || !strings.Contains(strings.ToLower(strings.Join(f.Access, "")), "x") {
 				continue
 			}
-			k := fmt.Sprintf("%v|%v|%v|%s", f.Audit, f.AccessType, f.Owner, f.Path)
+			k := fmt.Sprintf("%v|%s", f.AccessType, f.Path) // owner and audit do not keep the two apart: the parser merges all rules of a path
 			if targets[k] == nil {
 				targets[k] = map[string]bool{}
 			}
